@@ -121,6 +121,7 @@ def gen_cases(seed, tier):
     # a context whose macros take comma-separated list arguments (real code only: that parser is outside the model)
     for s in docgen.exhaustive(docgen.SYM_COMMASEP, 3 if quick else 4):
         cases.append(PC.mk_case('commasep', s, False, 'commasep'))
+    cases += PC.twin_cases(rnd, 250 if quick else 4000)
     for c in cases:
         s = c['desc']['s']
         c['nt'] = c['desc']['origin'] == 'fault' or (sum(1 for ch in s if ch in '\\{$[%') >= 1 and len(s) >= 3)
@@ -143,6 +144,10 @@ def _lc(s, p):
 def oracle(c):
     d = c['desc']
     s = d['s']
+    if d.get('origin') == 'chained-twin':
+        bad = PC.oracle_twin(d)
+        if bad:
+            return bad
     r = PC.real_parse(d)
     if r[0] == 'exn':
         e = r[1]
